@@ -449,6 +449,59 @@ def fatigue_oracle(ctx):
     _run(ctx, "fatigue", 3, 12, make, fatigue_check)
 
 
+def append_many_check(sc):
+    """a list is filled element by element through set_ at index == len (with and without cascade, through
+    path and pathd): every assignment appends, also beyond the first few hundred elements"""
+    from treepath import set_, pathd
+    n = sc["n"]
+    root = pathd if sc["dash"] else path
+    doc = {"l": []} if not sc["cascade"] else {}
+    try:
+        for i in range(n):
+            r = set_(root.l[i], i, doc, cascade=sc["cascade"])
+            if r != i:
+                return f"set_(path.l[{i}], {i}) returned {r!r}", True
+        if doc.get("l") != list(range(n)):
+            return f"after {n} appends through set_ the list has {len(doc.get('l', []))} elements", True
+        set_(root.l[-1], "last", doc)
+        if doc["l"][-1] != "last" or len(doc["l"]) != n:
+            return "set_ at index -1 of a long list did not replace the last element", True
+    except Exception as e:  # noqa
+        return f"filling a list through set_ failed at length {len(doc.get('l', []))}: {type(e).__name__}", True
+    return None, True
+
+
+def append_many_oracle(ctx):
+    cases = [{"n": 300, "cascade": False, "dash": False}, {"n": 300, "cascade": True, "dash": True}]
+    it = iter(cases)
+    _run(ctx, "append_many", len(cases), len(cases), lambda rng: next(it), append_many_check)
+
+
+def dash_root_check(sc):
+    """set_ / pop aimed at the root, and plain keys, through the dash builder `pathd`: the documented errors"""
+    import treepath
+    from treepath import set_, set_match, pop, pop_match, pathd
+    doc = dec(sc["doc"])
+    for name, call in (("set_", lambda: set_(pathd, 1, doc)), ("set_match", lambda: set_match(pathd, 1, doc, cascade=True)),
+                       ("pop", lambda: pop(pathd, doc)), ("pop_match", lambda: pop_match(pathd, doc)),
+                       ("set_ from a Match", lambda: set_(pathd, 1, get_match(pathd, doc))),
+                       ("get", lambda: get(pathd.no_such_key.x, doc)), ("set_ deep", lambda: set_(pathd.no_such.x, 1, doc))):
+        try:
+            call()
+        except treepath.TreepathException as e:
+            if not str(e) or str(e) != str(e) or repr(e) != repr(e):
+                return f"{name} through pathd: {type(e).__name__} does not render", True
+        except Exception as e:  # noqa
+            return f"{name} aimed at the root through pathd raised a bare {type(e).__name__}: {e}", True
+    return None, True
+
+
+def dash_root_oracle(ctx):
+    def make(rng):
+        return {"doc": enc(gen.gen_doc(rng))}
+    _run(ctx, "dash_root", 30, 300, make, dash_root_check)
+
+
 def big_iteration_check(sc):
     """"all documents" includes long ones: an iteration that delivers several hundred thousand results
     delivers all of them (the action budget is per next(), not per iterator), through every entry point"""
@@ -1199,9 +1252,42 @@ def reuse_oracle(ctx):
             order = [(0, 0, False), (0, 1, False), (0, 0, False), (1, 1, False)]
         return {"docs": [gen.enc(docs[0]), gen.enc(docs[1])], "pre": pre, "exts": exts, "order": order}
 
+    def crafted_rec(rng):
+        """a stored path ending in rec (or a wildcard) from which longer paths are derived — used or not —
+        before and after it is evaluated itself"""
+        d1 = gen.gen_doc(rng)
+        if not isinstance(d1, (dict, list)):
+            d1 = {"a": d1, "b": [1, {"c": [2, "x"]}, "y"]}
+        pg = gen.PathGen(rng, "child", "has")
+        pre = (pg.gen_path([d1], maxlen=1, minlen=0) if rng.random() < 0.5 else []) + [rng.choice([["rec"], ["rec"], ["gwc"]])]
+        exts = [[rng.choice([["k", rng.choice(gen.KEYS)], ["i", 0], ["f", ["all", []]], ["gwc"], ["wc"]])],
+                [rng.choice([["f", ["has", ["p", [["k", rng.choice(gen.KEYS)]]], []]], ["iwc"], ["s", None, None, None]])]]
+        order = [(0, 0, False)] if rng.random() < 0.5 else []
+        order += [(rng.choice([1, 2]), 0, rng.random() < 0.3), (0, 0, False), (rng.choice([1, 2]), 0, False), (0, 0, False)]
+        return {"docs": [gen.enc(d1), gen.enc(d1)], "pre": pre, "exts": exts, "order": order}
+
+    def crafted_same_scalars(rng):
+        """the same scalar object at several places whose surroundings differ: a filter that looks at the
+        surroundings (parent steps inside has) evaluated again and again through one path object"""
+        ks = rng.sample(gen.KEYS, 4)
+        v = rng.choice([1, 0, True, None, "s"])
+        flags = [rng.choice([True, False]) for _ in range(4)]
+        d1 = {k: {"v": v if rng.random() < 0.7 else 2, "ok": f} for k, f in zip(ks, flags)}
+        pred = rng.choice([["has", ["c", [["par"], ["k", "ok"]], "eq", enc(True)], []], ["not", ["c", [["par"], ["k", "ok"]], "eq", enc(True)], []],
+                           ["has", ["p", [["par"], ["par"], ["k", ks[0]]]], []]])
+        pre = [["wc"], ["k", "v"], ["f", pred]]
+        exts = [[["par"]], [["par"], ["k", "ok"]]]
+        order = [(0, 0, False), (0, 0, False), (1, 0, False), (0, 0, False), (2, 0, False), (0, 0, False)]
+        return {"docs": [gen.enc(d1), gen.enc(d1)], "pre": pre, "exts": exts, "order": order}
+
     def make(rng):
-        if rng.random() < 0.3:
+        r0 = rng.random()
+        if r0 < 0.25:
             return crafted(rng)
+        if r0 < 0.4:
+            return crafted_rec(rng)
+        if r0 < 0.5:
+            return crafted_same_scalars(rng)
         d1 = gen.gen_doc(rng)
         d2 = _vary_lists(rng, d1) if rng.random() < 0.7 else gen.gen_doc(rng)
         if rng.random() < 0.5:
@@ -1268,6 +1354,9 @@ def deep_check(sc):
 
         def count(_t):
             seen[0] += 1
+        tv0 = list(itertools.islice(find(path.rec.bottom, doc, trace=count), 3))
+        if tv0 != [1] or seen[0] == 0:
+            return f"traced find(path.rec.bottom) on a document of depth {depth} yields {tv0!r} ({seen[0]} events)", True
         tv = list(itertools.islice(find(path.rec[has(path.bottom)].zero, doc, trace=count), 3))
         if tv != [0]:
             return f"traced find(path.rec[has(path.bottom)].zero) on a document of depth {depth} yields {tv!r}", True
